@@ -349,7 +349,7 @@ def make_select(sch):
 class VProc:
     def __init__(self, sch, pid, procobj=None, flavour="run", parent=None, fake_tty=False):
         self.pid = pid
-        if procobj is not None and flavour == "import":
+        if procobj is not None and flavour.split("-")[0] == "import":
             mod = raw_copy(current=procobj)
         else:
             mod = raw_copy()
@@ -375,7 +375,8 @@ class VProc:
             if hasattr(mod, wn):
                 getattr(mod, wn).__wrapped__ = lambda self, *a, **k: None
         if procobj is not None:
-            base, _, over = flavour.partition("-")
+            base, mods = flavour.split("-")[0], flavour.split("-")[1:]
+            over = "o" if "o" in mods else ""
             if base == "fork":
                 # a forked child starts with a copy of the parent's globals, then the at-fork hooks
                 # registered for the child run
@@ -716,9 +717,12 @@ class Th(threading.Thread):
                         self.call_consumed = False
                         self.ret_consumed = False
                 else:
-                    po = multiprocessing.Process(target=noop)
+                    # (daemonic when the child's flavour carries the `d` modifier)
+                    po = multiprocessing.Process(
+                        target=noop, daemon="d" in self.sch.flav.get(str(cmd[1]), "run").split("-")[1:])
                     po._child_id = cmd[1]
                     self.procobj = po
+                    self.event = "start"   # (what the wrapper's first gate reports, too)
                     try:
                         vp.mod._process_start_wrapper(po)
                     except StartError:
@@ -1245,6 +1249,28 @@ def at_fork_sites():
     return sorted(set(found))
 
 
+def start_call_context():
+    """where `_process_start_wrapper` calls the original start (`….__wrapped__(self, …)`): the
+    compound statements lexically enclosing each such call (expected: none — in particular no `with`:
+    the original start, i.e. possibly os.fork(), runs while the thread holds no terminal lock; no
+    `if`/`try` either: one call, on every path, whose failure is not handled)"""
+    import ast
+    tree = ast.parse(open(UTILS_FILE).read())
+    out = []
+    for fn in ast.walk(tree):
+        if isinstance(fn, ast.FunctionDef) and fn.name == "_process_start_wrapper":
+            def visit(node, ctx):
+                for ch in ast.iter_child_nodes(node):
+                    c2 = ctx
+                    if isinstance(ch, (ast.With, ast.If, ast.Try, ast.For, ast.While)):
+                        c2 = ctx + [type(ch).__name__.lower()]
+                    if isinstance(ch, ast.Call) and isinstance(ch.func, ast.Attribute) and ch.func.attr == "__wrapped__":
+                        out.append("/".join(ctx) if ctx else "<top>")
+                    visit(ch, c2)
+            visit(fn, [])
+    return out
+
+
 def facts():
     probe = U0.lock_tty(lambda: None)
     sync_ops = wrapper_ops(probe.__code__)
@@ -1310,7 +1336,8 @@ def facts():
             "childAdoption": adoption, "lockTtyUsers": sorted(users),
             "ttyLockSites": [f"{n}: {o}" for n, o in tty_lock_sites()],
             "moduleInitOrder": module_init_order(), "lockAliases": lock_aliases(),
-            "wrappedMethods": sorted(wrapped_methods), "atForkHooks": atfork}
+            "wrappedMethods": sorted(wrapped_methods), "atForkHooks": atfork,
+            "startCallContext": start_call_context()}
 
 
 def _keeper():
